@@ -388,3 +388,75 @@ Section Height.
       destruct (xv_can_merge fuel cfuel s frags merged); [discriminate|exfalso; apply Hm; reflexivity].
   Qed.
 End Height.
+
+(* ---------- the document: the specification's verdict is defined ---------- *)
+Lemma xf_fold_max_in (l : list nat) x : In x l -> (x <= fold_right Nat.max O l)%nat.
+Proof. induction l as [|y l IH]; intros H; [destruct H|]. cbn [fold_right]. destruct H as [<-|H]; [lia|]. specialize (IH H). lia. Qed.
+
+Definition xf_doc_depth (d : document) : nat :=
+  fold_right Nat.max O (map (fun o => xv_sels_depth (xo_sels o)) (xv_ops d)
+                        ++ map (fun nf => xv_sels_depth (xv_frag_sels (snd nf))) (xv_frags d)).
+
+Lemma xf_merge_fuel d : xv_merge_fuel d = S (S (length (xv_frags d)) * S (xf_doc_depth d)).
+Proof. reflexivity. Qed.
+
+Lemma xv_sel_sets_depth s x : forall p q qs, In (q, qs) (xv_sel_sets s p x) -> (S (xv_sels_depth qs) <= xv_sel_depth x)%nat.
+Proof.
+  induction x as [a n args dirs sub IH|n dirs|c dirs sub IH] using selection_ind_nested; intros p q qs Hin; cbn [xv_sel_sets] in Hin.
+  - destruct sub as [|y0 r0] eqn:Esub; [destruct Hin|]. rewrite <- Esub in *. rewrite xv_sel_depth_field. destruct Hin as [E|Hin].
+    + injection E as <- <-. lia.
+    + apply in_flat_map in Hin. destruct Hin as (y & Hy & Hin). rewrite Forall_forall in IH. specialize (IH y Hy _ _ _ Hin).
+      pose proof (xv_sels_depth_in y sub Hy). lia.
+  - destruct Hin.
+  - cbn zeta in Hin. rewrite xv_sel_depth_inline. destruct Hin as [E|Hin].
+    + injection E as <- <-. lia.
+    + apply in_flat_map in Hin. destruct Hin as (y & Hy & Hin). rewrite Forall_forall in IH. specialize (IH y Hy _ _ _ Hin).
+      pose proof (xv_sels_depth_in y sub Hy). lia.
+Qed.
+
+Lemma xf_sets_depth s p sels q qs : In (q, qs) ((p, sels) :: flat_map (xv_sel_sets s p) sels) ->
+  (xv_sels_depth qs <= xv_sels_depth sels)%nat.
+Proof.
+  intros [E|Hin]; [injection E as <- <-; lia|]. apply in_flat_map in Hin. destruct Hin as (y & Hy & Hin).
+  pose proof (xv_sel_sets_depth s y _ _ _ Hin). pose proof (xv_sels_depth_in y sels Hy). lia.
+Qed.
+
+Lemma xf_all_sets_depth s d q qs : In (q, qs) (xv_all_sel_sets s d) -> (xv_sels_depth qs <= xf_doc_depth d)%nat.
+Proof.
+  intros Hin. unfold xv_all_sel_sets in Hin. apply in_app_or in Hin. destruct Hin as [Hin|Hin].
+  - apply in_flat_map in Hin. destruct Hin as (o & Ho & Hin). cbn zeta in Hin. pose proof (xf_sets_depth _ _ _ _ _ Hin) as H1.
+    assert (H2 : (xv_sels_depth (xo_sels o) <= xf_doc_depth d)%nat).
+    { apply xf_fold_max_in. apply in_or_app. left. apply in_map_iff. exists o. auto. }
+    lia.
+  - apply in_flat_map in Hin. destruct Hin as ([n f] & Hnf & Hin). cbn zeta in Hin. cbn [snd] in Hin.
+    pose proof (xf_sets_depth _ _ _ _ _ Hin) as H1.
+    assert (H2 : (xv_sels_depth (xv_frag_sels f) <= xf_doc_depth d)%nat).
+    { apply xf_fold_max_in. apply in_or_app. right. apply in_map_iff. exists (n, f). auto. }
+    lia.
+Qed.
+
+Lemma xf_frag_depth d n f : xv_assoc n (xv_frags d) = Some f -> (xv_sels_depth (xv_frag_sels f) <= xf_doc_depth d)%nat.
+Proof.
+  intros E. apply xv_assoc_in in E. apply xf_fold_max_in. apply in_or_app. right. apply in_map_iff. exists (n, f). auto.
+Qed.
+
+(* the bound on the nesting height of the document *)
+Definition xf_doc_height (d : document) : nat := (length (xv_frags d) * S (xf_doc_depth d) + xf_doc_depth d)%nat.
+
+Lemma xf_doc_height_fuel d : (xf_doc_height d + 2 = xv_merge_fuel d)%nat.
+Proof. rewrite xf_merge_fuel. unfold xf_doc_height. cbn [Nat.mul]. lia. Qed.
+
+(* with acyclic fragments the specification's evaluation of 5.3.2 never runs out of its fuel *)
+Theorem xf_verdict_defined s d : xv_r_no_fragment_cycles d = true -> xv_merge_out_of_fuel s d = false.
+Proof.
+  intros Hc. pose proof (xf_no_cycles d Hc) as Hac. unfold xv_merge_out_of_fuel, xv_merge_verdict. rewrite Hc.
+  match goal with |- match ?v with _ => _ end = false => destruct v as [r|] eqn:E end; [reflexivity|]. exfalso. revert E.
+  apply xv_all3_total. intros [q qs] Hin. destruct q as [p|]; [|discriminate].
+  destruct (xv_collect (S (length (xv_frags d))) s (xv_frags d) p qs) as [fields|] eqn:Ec;
+    [|exfalso; exact (xf_collect_some s (xv_frags d) Hac _ _ Ec)].
+  pose proof (xf_all_sets_depth s d _ _ Hin) as Hd.
+  pose proof (xh_bound (xv_frags d) Hac (xf_doc_depth d) (xf_frag_depth d) qs Hd) as Hh. fold (xf_doc_height d) in Hh.
+  apply (xh_can_merge_some (xv_frags d) Hac (xf_doc_depth d) (xf_frag_depth d) s (xv_merge_fuel d) (pred (xf_doc_height d))).
+  - pose proof (xf_doc_height_fuel d). lia.
+  - intros c Hcin. destruct (xh_collect_sub (xv_frags d) s _ _ _ _ _ Hh Ec c Hcin) as (n' & E & Hsub). rewrite E. exact Hsub.
+Qed.
